@@ -88,7 +88,8 @@ EntsOK(F, pre, a, r) ==
             /\ q = [pre.ent EXCEPT ![a.x].name = q[a.x].name, ![a.x].tk = q[a.x].tk]
             /\ (q[a.x].tk = pre.ent[a.x].tk \/ pre.ent[a.x].tk = "")
       [] a.op = "pop_class" ->
-            LET e == OPopClass(F, pre, a.x) IN e.s.ent = q /\ (e.exc = "any" \/ (e.exc = r.exc /\ e.val = r.val))
+            \/ (pre.ent = q /\ r.exc = "KeyError")
+            \/ LET e == OPopClassRemove(F, pre, a.x) IN e.s.ent = q /\ (e.exc = "any" \/ (e.exc = r.exc /\ e.val = r.val))
       [] OTHER ->
             LET e == Apply(F, pre, a) IN e.s.ent = q /\ e.exc = r.exc /\ e.val = r.val
 
